@@ -16,6 +16,9 @@ Decided:
     path to a return passes through the construction of the driver value (whose drop order R1 / Drop impl quiesces the
     device first); a `?`/early return between finish_init and that point would drop the constructor's local queues -
     freeing their DMA memory - before the transport parameter is dropped (parameters are dropped after locals).
+ R7 Drop disables what was enabled: for every driver whose Drop calls Transport::queue_unset, the set of queue indices
+    it unsets equals the set of indices its constructor created queues for (loop ranges with constant bounds are
+    expanded); a queue left enabled keeps pointing at memory that is freed right afterwards.
 Not decided: "every k" is not enumerated - R3/R4 make the statement independent of k.
 """
 from .common import *
@@ -25,7 +28,7 @@ from . import C05
 EXPLANATION = ("Drop order is computed from struct declarations (Rust drops fields in declaration order) with device-shared fields "
                "found by type and by flow of buffers into queue operands; RAII constructor/Drop of the DMA owner are path-enumerated; "
                "unwrap/expect operands are traced back to allocation-capable callees over the resolved call graph.")
-FLOORS = {'constructors': {'*': 10, 'noalloc': 4}, 'driver_structs': {'*': 12, 'noalloc': 4}, 'unwrap_sites_examined': {'*': 10, 'noalloc': 2}}
+FLOORS = {'unsetting_drops': {'*': 5, 'noalloc': 3}, 'constructors': {'*': 10, 'noalloc': 4}, 'driver_structs': {'*': 12, 'noalloc': 4}, 'unwrap_sites_examined': {'*': 10, 'noalloc': 2}}
 
 
 def transport_param_fields(F, adt):
@@ -139,6 +142,7 @@ def run(F, R):
     r3_unwrap(F, R, M)
     r4_raii(F, R, M)
     r2_reset(F, R)
+    r7_unset_all(F, R, M, drivers)
 
 
 def is_plain_scalar(ty):
@@ -388,3 +392,71 @@ def r4_raii(F, R, M, rule='R4'):
                 bad = [o for o in owners if o and o in tys]
                 R.check(not bad, rule, '%s:no-leak' % b['id'], fn_site(F, b['id']), 'leak operation on %s' % tys[:60],
                         'a value containing %s is leaked with %s: its DMA memory is never returned' % (bad, t['fn']))
+
+
+def range_values(S, t):
+    """Values of a loop variable bound by `for v in a..b` / `a..=b` with constant bounds, or None."""
+    nxt = [x for x in subterms(t) if x[0] == 'call' and x[2].endswith('::next') and x[3]]
+    for c in nxt:
+        for y in deep_subterms(S, c[3][0], depth=5):
+            if y[0] == 'agg' and 'core::ops::Range' in y[1] and len(y[2]) >= 2:
+                a, b = fold_const(y[2][0]), fold_const(y[2][1])
+                if a is None or b is None:
+                    return None
+                if 'RangeInclusive' in y[1]:
+                    return list(range(a, b + 1))
+                return list(range(a, b))
+            if y[0] == 'call' and y[2].endswith('RangeInclusive::<Idx>::new') and len(y[3]) == 2:
+                a, b = fold_const(y[3][0]), fold_const(y[3][1])
+                return None if a is None or b is None else list(range(a, b + 1))
+    return None
+
+
+def r7_unset_all(F, R, M, drivers):
+    qctor = set(b['id'] for b in queue_entry_points(F, M) if b.get('sig', '').find('-> core::result::Result<%s<' % M.queue_adt) >= 0)
+    n = 0
+    for adt in sorted(drivers):
+        drops = [b for b in F.bodies.values() if b.get('impl_adt') == adt and b.get('impl_trait') == 'core::ops::Drop' and F.handwritten(b)]
+        if not drops:
+            continue
+        sgd = supergraph(F, drops[0]['id'])
+        Sd = sgd.sym
+        unset = set()
+        unknown = None
+        calls = [c for c in sgd.calls(lambda d: d.get('trait') == TRANSPORT and d.get('method') == 'queue_unset')]
+        if not calls:
+            continue
+        for c in calls:
+            t = Sd.operand(c.id, c.d['args'][1])
+            k = fold_const(t)
+            if k is not None:
+                unset.add(k)
+                continue
+            vs = range_values(Sd, t)
+            if vs is None:
+                unknown = fmt(t)[:80]
+            else:
+                unset |= set(vs)
+        created = set()
+        for b in F.bodies.values():
+            if b.get('impl_adt') != adt or 'impl_trait' in b or b['kind'] != 'AssocFn' or not F.handwritten(b):
+                continue
+            if not any(bl['term']['k'] == 'call' and bl['term'].get('trait') == TRANSPORT and bl['term'].get('method') == 'finish_init' for bl in b['blocks']):
+                continue
+            sgc = supergraph(F, b['id'], opaque=lambda t_, bb: bb['id'] in qctor, tag='r7')
+            Sc = sgc.sym
+            for c in sgc.calls(lambda d: d.get('fn') in qctor):
+                k = fold_const(Sc.operand(c.id, c.d['args'][1]))
+                if k is None:
+                    unknown = unknown or 'queue index %s' % fmt(Sc.operand(c.id, c.d['args'][1]))[:60]
+                else:
+                    created.add(k)
+        n += 1
+        where = fn_site(F, drops[0]['id'])
+        if unknown:
+            R.abstain('R7', '%s:unset-all' % adt, 'cannot evaluate a queue index: %s' % unknown, where)
+            continue
+        R.check(created <= unset, 'R7', '%s:unset-all' % adt, where, 'Drop unsets queues %s = queues created %s' % (sorted(unset), sorted(created)),
+                'Drop disables queues %s but the constructor enabled queues %s: queue(s) %s stay enabled and keep pointing at DMA memory that is freed immediately '
+                'afterwards (on a transport that does not reset on drop the device is still live on them)' % (sorted(unset), sorted(created), sorted(created - unset)))
+    R.count('unsetting_drops', n)
